@@ -114,6 +114,7 @@ fn vrun(profile: &str, seed: u64, start: u64, count: u64, out: &str, verbose: bo
         tally.count("events", run.evs.len() as u64);
         tally.count("callbacks", run.cbs.len() as u64);
         tally.count("qpoints", run.qpoints.len() as u64);
+        tally.count("runs_with_cli_options_parsed_from_an_argument_vector", u64::from(vh::world::with_rs(|rs| rs.cli_from_argv)));
         tally.count("polls", run.polls);
         tally.count("parked", u64::from(run.parked));
         tally.count("gates_released_together_with_another", run.multi_releases);
